@@ -51,6 +51,11 @@ pub struct Case {
     /// residency / lru: nothing was ever saved before the save under test (S_old = "no file yet")
     #[serde(default)]
     pub no_old: bool,
+    /// lru: the manager that recovers (and the one after it) is created with THIS capacity instead of the
+    /// crashed one's (0 = the same): a configuration change between two starts. A smaller table makes a shorter
+    /// checkpoint image than whatever the interrupted save left behind.
+    #[serde(default)]
+    pub recover_cap: u32,
 }
 
 fn idx_key(i: usize) -> [u8; 16] {
@@ -131,7 +136,7 @@ impl Scenario for Crash {
         "crash image (one crash point x tear variant of one recorded save), recovered with the real loader"
     }
     fn rule(&self) -> &'static str {
-        "Per run: a seeded short history brings one object (index buckets / residency DB / LRU checkpoint / disk-cache entry) to a saved state S_old, a seeded mutation gives S_new, and the save under test (save_all, flush_all_updates, flush_updates_for_bucket, ResidencyDb::save, checkpoint_to_disk with and without bump, shutdown, DiskCache::put) runs with the libc disk recorder on. Then EVERY crash index 0..=n of the recorded syscall log is enumerated under model P (process death; plus every chosen prefix of an in-flight write) and model D (power loss: un-synced content replaced by nothing / prefixes incl. every 512-byte boundary +-1 when exposed under a real name / zeros / stale bytes). Each image is materialised and recovered by a FRESH real loader; the logical content must equal S_old or S_new exactly (per bucket / per key), recovery must not fail or panic, and one more mutate+save+load must round-trip. evaluations = crash images; non-trivial run = >= 2 mutations and >= 1 image; distinct = hash of (case, disk log, per-image verdicts)."
+        "Per run: a seeded short history brings one object (index buckets / residency DB / LRU checkpoint / disk-cache entry) to a saved state S_old, a seeded mutation gives S_new, and the save under test (save_all, flush_all_updates, flush_updates_for_bucket, ResidencyDb::save, checkpoint_to_disk with and without bump, shutdown, DiskCache::put) runs with the libc disk recorder on. Then EVERY crash index 0..=n of the recorded syscall log is enumerated under model P (process death; plus every chosen prefix of an in-flight write) and model D (power loss: un-synced content replaced by nothing / prefixes incl. every 512-byte boundary +-1 when exposed under a real name / zeros / stale bytes). Each image is materialised and recovered by a FRESH real loader; the logical content must equal S_old or S_new exactly (per bucket / per key), recovery must not fail or panic, and one more mutate+save+load must round-trip (LRU: in one run in four the recovering manager and its successor are created with another capacity - 1, half, double - than the crashed one). evaluations = crash images; non-trivial run = >= 2 mutations and >= 1 image; distinct = hash of (case, disk log, per-image verdicts)."
     }
     fn assumptions(&self) -> Vec<&'static str> {
         vec![
@@ -202,7 +207,11 @@ impl Scenario for Crash {
         };
         // LRU tables of up to 64 slots give checkpoint files of several 512-byte pages
         let cap = if obj == "lru" && rng.chance(1, 3) { *rng.pick(&[20u32, 40, 64]) } else { rng.range(2, 5) as u32 };
-        Case { obj: obj.to_string(), pre, post, save: save.to_string(), cap, reloaded: rng.chance(1, 3), no_old: (obj == "residency" || obj == "lru") && rng.chance(1, 6) }
+        let reloaded = rng.chance(1, 3);
+        let no_old = (obj == "residency" || obj == "lru") && rng.chance(1, 6);
+        // drawn last: one LRU run in four restarts with another capacity
+        let recover_cap = if obj == "lru" && rng.chance(1, 4) { *rng.pick(&[1u32, (cap / 2).max(1), (cap / 2).max(1), cap * 2]) } else { 0 };
+        Case { obj: obj.to_string(), pre, post, save: save.to_string(), cap, reloaded, no_old, recover_cap }
     }
 
     fn execute(&self, case: &Case, ctx: &mut Ctx) -> Option<Violation> {
@@ -565,10 +574,12 @@ async fn run(case: &Case, ctx: &mut Ctx) -> Option<Violation> {
                 return Some(Violation::new("C06.save.ok", "save_failed", sig(case, "save_failed", "nofault"), format!("the LRU save under test failed without any injected fault: {e}")));
             }
             let new: Vec<[u8; 9]> = model.iter().copied().collect();
+            let rcap = if case.recover_cap > 0 { case.recover_cap } else { cap };
             recover = Box::new(move |img: &Path| {
                 let (old, new) = (old.clone(), new.clone());
                 let img = img.to_path_buf();
                 Box::pin(async move {
+                    let cap = rcap;
                     let mut l = LruManager::new(cap, img.clone());
                     l.run_cycle(0, 0).await.map_err(|e| ("recover_failed".to_string(), format!("run_cycle on the crash image failed: {e}")))?;
                     let mut got = Vec::new();
